@@ -226,10 +226,14 @@ def licWalkList (path : List String) : List (String × ENode) → List (List Str
   | (n, c) :: rest => (if hiddenName n then [] else licWalkNode path n c) ++ licWalkList path rest
 end
 
-/-- the paths `_find_licenses` iterates over (`*.license` companions are skipped by `findStep`) -/
+/-- the paths `_find_licenses` iterates over (`*.license` companions are skipped by `findStep`).
+    `glob("LICENSES/**")` also yields `LICENSES/` itself (CPython 3.12 `_glob2`), which the loop
+    skips when it is a directory or does not exist — a *regular file* called LICENSES is
+    therefore taken for a licence text (known finding `licenses-is-a-regular-file`). -/
 def licFilesOf (tree : ETree) : List Text :=
   match elookup tree "LICENSES" with
   | some (.dir cs) => (licWalkList ["LICENSES"] cs).map relText
+  | some (.file _) => [relText ["LICENSES"]]
   | _ => []
 
 /-- `(root / ".reuse/dep5").exists()` -/
